@@ -710,6 +710,17 @@ func runC08(c *RunCtx) {
 }
 
 func runC07(c *RunCtx) {
+	// the submitted data reaches the function on adapter-backed queues too (reference payloads: struct, map, slice, pointer)
+	for _, typ := range []int{3, 4, 5, 7} {
+		for variant := 0; variant < 4; variant++ {
+			for v := 0; v < c.Q(4, 40); v++ {
+				c.Program(fmt.Sprintf("fidelity/t%d/v%d/%d", typ, variant, v), func(p *Prog) {
+					seed := p.Rng.Next()
+					p.Explore(func(pl Plan) *Result { return epFidelity(c, typ, variant, seed) }, ExploreOpts{Base: 1})
+				})
+			}
+		}
+	}
 	for v := 0; v < c.Q(96, 600); v++ {
 		c.Program(fmt.Sprintf("outcome/%d", v), func(p *Prog) {
 			cfg := drawOut(p.Rng)
